@@ -169,3 +169,8 @@ CASES += [
         ("quantarhei/core/units.py", "    m = Manager()\n    with energy_units(in_units):\n        e = m.convert_energy_2_internal_u(val)\n    \n    if to is None:",
          "    m = Manager()\n    if (to in conversion_facs_energy) and (in_units in conversion_facs_energy):\n        if in_units != \"nm\":\n            return (val*conversion_facs_energy[in_units])/conversion_facs_energy[to]\n    with energy_units(in_units):\n        e = m.convert_energy_2_internal_u(val)\n    \n    if to is None:", 1)]},
 ]
+
+CASES += [
+    {"name": "iu_energy converts wavelengths linearly (the repaired defect)", "kind": "mutant", "rule": "C05-U18", "edits": [
+        ("quantarhei/core/managers.py", "            if units == \"nm\":\n                # wavelength is inversely proportional to energy\n                return (1.0/val)/x\n", "", 1)]},
+]
